@@ -209,6 +209,7 @@ func execStale(c StaleCase) (res vt.Result) {
 			return fail("the first batch neither reaches the chosen write nor returns")
 		}
 	}
+	batchLetGo := false
 	if held {
 		rec.Count("first_batch_held_inside_its_storage_transaction", 1)
 		// (a search on any shard of the node may have to wait for a batch that is held inside a flush: the
@@ -224,6 +225,7 @@ func execStale(c StaleCase) (res vt.Result) {
 				return fail("search on the other shard: %v", err)
 			}
 		case <-time.After(300 * time.Millisecond):
+			batchLetGo = true
 			release(putGo)
 			if err := <-od; err != nil {
 				release(gapGo)
@@ -235,9 +237,15 @@ func execStale(c StaleCase) (res vt.Result) {
 		if c.Reader {
 			// (a search may have to wait for the held batch: then the batch is let go and the search awaited)
 			rd := make(chan error, 1)
+			// (the count is only demanded of a search that has its answer while the batch is still held: once
+			// the harness has let the batch go - because the search had to wait for it, or because the machine
+			// is busy and the search has not got anywhere within the 300 ms - the batch commits and a search
+			// that begins after that rightly sees its points)
+			var letGo atomic.Bool
+			letGo.Store(batchLetGo) // (the batch may have been let go already, for the search on the other shard)
 			go func() {
 				got, err := search(s)
-				if err == nil && len(got) != c.Pre {
+				if err == nil && !letGo.Load() && len(got) != c.Pre {
 					err = fmt.Errorf("a search during the uncommitted first batch finds %d points, %d are committed", len(got), c.Pre)
 				}
 				rd <- err
@@ -252,6 +260,7 @@ func execStale(c StaleCase) (res vt.Result) {
 				}
 				rec.Count("searches_during_the_held_batch", 1)
 			case <-time.After(300 * time.Millisecond):
+				letGo.Store(true)
 				release(putGo)
 				if err := <-rd; err != nil {
 					release(gapGo)
